@@ -15,6 +15,7 @@ TECHNIQUE = 'static typestate dataflow (cache state E/V/S) over MRO-resolved ent
 DECIDES += (' DC9: the deep copy of every shape class, interpreted with the memo contract modelled, shares no container with its source (cache included), has the same content and the same aliasing structure; DOM2: a plain evaluate() asks the evaluator for the whole domain also when evaluated points are already stored; transposition follows the setter protocol (degrees, net, knots).')
 DECIDES += (' IV9: outside the geometry classes nothing edits data reached from a geometry argument in place; IV8: cached views are read through their getters; TP2: transposition through the real setters.')
 DECIDES += (" CK3: cache keys exist, empty and unshared, on new objects and deep copies of every concrete class; CB2: a container's bounding box follows edits of its elements (read / edit through the setter / read again, on real containers). INVAL propagates constant cache keys (loops over class-level key tuples, dictionary updates) and treats a missing tessellation component as an empty tessellation cache.")
+DECIDES += (' CT2: a real SurfaceContainer of recorder surfaces through four rebuilds (first, after add, forced, after reset; container delta pushed or delta=False): vertices and faces once each, in order, numbered without gaps; OWN2: two new objects share no container.')
 
 
 def check(m, run):
